@@ -203,3 +203,18 @@ macro_rules! div_impl {
 }
 
 crate::macro_impl!(div_impl);
+
+// Verification hooks: thin public wrappers around internal functions, compiled only with `--cfg bnum_verif`.
+#[cfg(bnum_verif)]
+macro_rules! verif_hooks {
+    ($BUint: ident, $BInt: ident, $Digit: ident) => {
+        impl<const N: usize> $BUint<N> {
+            pub fn verif_basecase_div_rem(self, v: Self, n: usize) -> (Self, Self) {
+                self.basecase_div_rem(v, n)
+            }
+        }
+    };
+}
+
+#[cfg(bnum_verif)]
+crate::macro_impl!(verif_hooks);
